@@ -235,7 +235,7 @@ def load_corpus():
     return out
 
 
-def shard_eval(chk, name, hdr, defname, chkname, lits, size=400):
+def shard_eval(chk, name, hdr, defname, chkname, lits, size=400, typ=None):
     """Evaluate `mism chk lits` in shards, in parallel; returns list of mismatching global indices or None."""
     # shards bounded by count and by literal bytes (long histories get shards of their own)
     shards, cur, curb = [], [], 0
@@ -249,7 +249,7 @@ def shard_eval(chk, name, hdr, defname, chkname, lits, size=400):
         shards.append(cur)
 
     def one(k):
-        txt = hdr + (f"Definition {defname} := {cL(l for _, l in shards[k])}.\n"
+        txt = hdr + (f"Definition {defname}{(' : ' + typ) if typ else ''} := {cL(l for _, l in shards[k])}.\n"
                      f"Eval vm_compute in (mism {chkname} {defname}).\n")
         ok, evals, err = chk.coq_run(f"{name}_{k}", txt, timeout=900)
         if not ok or len(evals) != 1:
@@ -327,14 +327,17 @@ def run(chk):
             continue
         k, lit = lit_prim(p, r)
         groups[k].append(lit)
+    ptypes = {"ss": "list (list Z * Z * nat)", "insert": "list (list nat * list nat * list nat * list nat)",
+              "inv": "list (nat * list nat * list nat)"}
     for k, fn in (("ss", "chk_ss"), ("insert", "chk_insert"), ("inv", "chk_inv")):
-        bad, err = shard_eval(chk, "prim_" + k, hdr, "pc", fn, groups[k], size=1500)
+        bad, err = shard_eval(chk, "prim_" + k, hdr, "pc", fn, groups[k], size=1500, typ=ptypes[k])
         chk.oblige(f"library model vs numpy: {k} ({len(groups[k])} exhaustive small cases)", "correspondence",
                    bad == [], err or ("mismatch: " + "; ".join(groups[k][i] for i in (bad or [])[:3])))
         chk.oracle_validations += len(groups[k])
     # ---- correspondence of histories ----------------------------------------------------
     lits = [lit_case(c, tr) for c, tr in zip(hist, traces)]
-    bad, err = shard_eval(chk, "hist", hdr, "cases", "chk_case", lits, size=300)
+    bad, err = shard_eval(chk, "hist", hdr, "cases", "chk_case", lits, size=300,
+                          typ="list (bool * bool * list op * list (option snap))")
     chk.oblige(f"correspondence: per-call snapshots of the real OrderedSamples = model trace ({len(lits)} histories)",
                "correspondence", bad == [], err or f"{len(bad or [])} mismatching histories, first: "
                + json.dumps(hist[bad[0]] if bad else None)[:1500])
